@@ -50,34 +50,66 @@ theorem stepper_fails_on_current_code :
   revert this
   decide
 
-/-! ## Simulator (fixed code: `init_use_mask` drops the evolve cache when the mask mode changes) -/
+/-! ## Simulator (repaired code: `init_use_mask` drops the evolve cache when the mask mode changes, `evolve`
+sets the mode itself, mask-free computations remove the mask an earlier call left on the backend) -/
 
 theorem simulator_inv_all_histories (ops : List SiOp) : InvSi (exec (stepSi true) initSi ops) :=
   inv_exec _ InvSi (fun s op h => invSi_step s op h) _ invSi_init ops
 
+/-- EVERY query — `probs_svd` (generic or fast path, any detectors), `evolve` / `probs(StateVector)`,
+`evolve_svd`, `probs(BasicState)`, `probability`, `prob_amplitude` — after any history answers what a fresh
+simulator given the final configuration answers -/
+theorem simulator_query_eq_fresh (ops : List SiOp) (q : SiOp) (hq : q.isQuery = true) :
+    (stepSi true (exec (stepSi true) initSi ops) q).2 =
+      freshSi true (exec (stepSi true) initSi ops).config q := by
+  rw [querySi_spec _ q hq (simulator_inv_all_histories ops)]
+  unfold freshSi
+  rw [querySi_spec _ q hq (simulator_inv_all_histories _), configSi_canon]
+
 /-- `probs_svd` (generic or fast path, any detectors) after any history = fresh simulator -/
 theorem simulator_probs_svd_eq_fresh (ops : List SiOp) (pnr generic : Bool) (keys : List SiKey) :
     (stepSi true (exec (stepSi true) initSi ops) (.probsSvd pnr generic keys)).2 =
-      freshSi true (exec (stepSi true) initSi ops).config (.probsSvd pnr generic keys) := by
-  rw [probsSvdSi_spec _ _ _ _ (simulator_inv_all_histories ops)]
-  unfold freshSi
-  rw [probsSvdSi_spec _ _ _ _ (simulator_inv_all_histories _), configSi_canon]
+      freshSi true (exec (stepSi true) initSi ops).config (.probsSvd pnr generic keys) :=
+  simulator_query_eq_fresh ops _ rfl
 
 /-- `evolve` after any history = fresh simulator -/
 theorem simulator_evolve_eq_fresh (ops : List SiOp) (keys : List SiKey) :
     (stepSi true (exec (stepSi true) initSi ops) (.evolve keys)).2 =
-      freshSi true (exec (stepSi true) initSi ops).config (.evolve keys) := by
-  rw [evolveSi_spec _ _ (simulator_inv_all_histories ops)]
-  unfold freshSi
-  rw [evolveSi_spec _ _ (simulator_inv_all_histories _), configSi_canon]
+      freshSi true (exec (stepSi true) initSi ops).config (.evolve keys) :=
+  simulator_query_eq_fresh ops _ rfl
 
-theorem simulator_history_independent (h₁ h₂ : List SiOp) (pnr generic : Bool) (keys : List SiKey)
+/-- `evolve_svd` after any history = fresh simulator: every vector that passes the photon filter is rebuilt from
+states evolved for the current circuit under the mask of the current heralds -/
+theorem simulator_evolve_svd_eq_fresh (ops : List SiOp) (groups : List (Bool × List SiKey)) :
+    (stepSi true (exec (stepSi true) initSi ops) (.evolveSvd groups)).2 =
+      freshSi true (exec (stepSi true) initSi ops).config (.evolveSvd groups) :=
+  simulator_query_eq_fresh ops _ rfl
+
+/-- `probs(BasicState)` after any history = fresh simulator (no mask left by an earlier call is in force) -/
+theorem simulator_probs_eq_fresh (ops : List SiOp) (sts : List Nat) :
+    (stepSi true (exec (stepSi true) initSi ops) (.probs sts)).2 =
+      freshSi true (exec (stepSi true) initSi ops).config (.probs sts) :=
+  simulator_query_eq_fresh ops _ rfl
+
+/-- `probability` / `prob_amplitude` after any history = fresh simulator -/
+theorem simulator_direct_eq_fresh (ops : List SiOp) (sts : List Nat) :
+    (stepSi true (exec (stepSi true) initSi ops) (.direct sts)).2 =
+      freshSi true (exec (stepSi true) initSi ops).config (.direct sts) :=
+  simulator_query_eq_fresh ops _ rfl
+
+/-- closed form: the answer of every query is a function of the configuration (`specSiQ`), never `stale` -/
+theorem simulator_query_closed_form (ops : List SiOp) (q : SiOp) (hq : q.isQuery = true) :
+    (stepSi true (exec (stepSi true) initSi ops) q).2 = specSiQ (exec (stepSi true) initSi ops).config q :=
+  querySi_spec _ q hq (simulator_inv_all_histories ops)
+
+theorem simulator_history_independent (h₁ h₂ : List SiOp) (q : SiOp) (hq : q.isQuery = true)
     (hc : (exec (stepSi true) initSi h₁).config = (exec (stepSi true) initSi h₂).config) :
-    (stepSi true (exec (stepSi true) initSi h₁) (.probsSvd pnr generic keys)).2 =
-      (stepSi true (exec (stepSi true) initSi h₂) (.probsSvd pnr generic keys)).2 := by
-  rw [simulator_probs_svd_eq_fresh, simulator_probs_svd_eq_fresh, hc]
+    (stepSi true (exec (stepSi true) initSi h₁) q).2 = (stepSi true (exec (stepSi true) initSi h₂) q).2 := by
+  rw [simulator_query_eq_fresh _ _ hq, simulator_query_eq_fresh _ _ hq, hc]
 
-example : (exec (stepSi true) initSi [.setCircuit 1, .setHeralds 1 1, .probsSvd true true [(7, 3, 2)]]).config =
+/-- non-vacuity: histories with queries of every kind in between, same final configuration -/
+example : (exec (stepSi true) initSi [.setCircuit 1, .setHeralds 1 1, .probsSvd true true [(7, 3, 2)],
+      .probs [7], .direct [7], .evolveSvd [(true, [(7, 3, 2)]), (false, [(8, 1, 1)])]]).config =
     (exec (stepSi true) initSi [.setHeralds 1 1, .setCircuit 1]).config := by decide
 
 /-- the code of the pinned tree: evolved states cached under the heralds mask (PNR detectors) are
@@ -91,27 +123,206 @@ theorem simulator_fails_on_current_code :
   revert this
   decide
 
-/-! ## Processor -/
+/-- the code of the pinned tree: `probs(BasicState)`, `probability` and `prob_amplitude` run under the heralds
+mask a `probs_svd` (fast path here) left on the backend; the repaired code answers like a fresh simulator -/
+theorem simulator_leftover_mask_fails_on_current_code :
+    (stepSi false (exec (stepSi false) initSi [.setCircuit 1, .setHeralds 1 1, .probsSvd true false [(7, 3, 2)]])
+        (.probs [7])).2 = .stale ∧
+    (stepSi false (exec (stepSi false) initSi [.setCircuit 1, .setHeralds 1 1, .probsSvd true false [(7, 3, 2)]])
+        (.direct [7])).2 = .stale ∧
+    freshSi false ⟨some 1, 1, 1, 0⟩ (.probs [7]) = .res [(7, 1)] 1 0 ∧
+    (stepSi true (exec (stepSi true) initSi [.setCircuit 1, .setHeralds 1 1, .probsSvd true false [(7, 3, 2)]])
+        (.probs [7])).2 = .res [(7, 1)] 1 0 := by
+  decide
 
-theorem processor_inv_all_histories (ops : List PrOp) : InvPr (exec stepPr initPr ops) :=
-  inv_exec _ InvPr (fun s op h => invPr_step s op h) _ invPr_init ops
+/-- the code of the pinned tree: a vacuum component (`n = 0`: `use_mask` is not called) is evolved under the
+mask a call made for OTHER heralds left on the backend -/
+theorem simulator_vacuum_under_leftover_mask_fails_on_current_code :
+    (stepSi false (exec (stepSi false) initSi
+        [.setCircuit 1, .setHeralds 1 1, .probsSvd true false [(7, 3, 2)], .setHeralds 2 0])
+        (.probsSvd true false [(8, 0, 0)])).2 = .stale ∧
+    (stepSi true (exec (stepSi true) initSi
+        [.setCircuit 1, .setHeralds 1 1, .probsSvd true false [(7, 3, 2)], .setHeralds 2 0])
+        (.probsSvd true false [(8, 0, 0)])).2 = .res [(8, 1)] 2 0 := by
+  decide
 
-/-- `probs()` after any history of add / parameter change / noise / input / filter changes and queries
-equals `probs()` of a fresh processor given the final configuration: the kept simulator was built for the
-current selection, the cached source distribution for the current noise and input -/
-theorem processor_query_eq_fresh (ops : List PrOp) :
-    (stepPr (exec stepPr initPr ops) .probs).2 = freshPr (exec stepPr initPr ops).config := by
-  rw [probsPr_spec _ (processor_inv_all_histories ops)]
+/-! ## Processor
+
+  `stepPr false`: the automatic photon filter is recomputed at every call (a repair that does not exist in the
+  tree); `stepPr true`: the code as it is (the automatic value is stored as if the user had set it — open known
+  finding `processor-auto-filter-persists`).  Both share everything else: the kept simulator and its precision,
+  the cached source distribution, the phase-noise snapshot, the merged input.
+
+  `Pr.inputCurrent`: a Fock-state input was given after the last `add_herald`.  It is a legality condition of
+  the history, not a cache: `with_input` writes the heralds of that moment into `_input_state`, and once the
+  heralds change the processor expects an input of another length, so the old input cannot be given to a fresh
+  processor at all (`processor_herald_after_input_keeps_old_input` shows what the code does then).
+-/
+
+theorem processor_inv_all_histories (persist : Bool) (ops : List PrOp) :
+    InvPr persist (exec (stepPr persist) initPr ops) :=
+  inv_exec _ (InvPr persist) (fun s op h => invPr_step persist s op h) _ (invPr_init persist) ops
+
+/-- `probs(precision)` — any precision or none — after any history of `add` (components, detectors),
+`add_herald`, `set_postselection` / `clear_postselection`, parameter changes, noise assignments, in-place
+updates of the held NoiseModel, `with_input` (Fock state or distribution), filter changes and earlier queries
+(with or without a precision) equals `probs(precision)` of a fresh processor given the final configuration:
+the kept simulator was built for the current heralds and post-selection and has the precision asked for now,
+the cached distribution comes from the current source and input.  (Model in which the automatic photon filter
+is not stored.) -/
+theorem processor_query_eq_fresh (ops : List PrOp) (prec : Option Nat)
+    (hc : (exec (stepPr false) initPr ops).inputCurrent) :
+    (stepPr false (exec (stepPr false) initPr ops) (.probs prec)).2 =
+      freshPr false (exec (stepPr false) initPr ops).config prec := by
+  have hi := processor_inv_all_histories false ops
+  rw [probsPr_spec false _ prec hi hc (hi.noauto rfl)]
   unfold freshPr
-  rw [probsPr_spec _ (processor_inv_all_histories _), configPr_canon]
+  obtain ⟨c1, c2, c3⟩ := canonPr_state false (exec (stepPr false) initPr ops).config
+  rw [probsPr_spec false _ prec (processor_inv_all_histories false _) c2 c3, c1]
 
-theorem processor_history_independent (h₁ h₂ : List PrOp)
-    (hc : (exec stepPr initPr h₁).config = (exec stepPr initPr h₂).config) :
-    (stepPr (exec stepPr initPr h₁) .probs).2 = (stepPr (exec stepPr initPr h₂) .probs).2 := by
-  rw [processor_query_eq_fresh, processor_query_eq_fresh, hc]
+/-- the code as it is: the same, for every history after which the stored photon filter was not written by the
+automatic rule (`auto = false`: the user gave a filter before the first query, or after it).
+Full statement (without `ha`): refuted by `processor_auto_filter_fails_on_current_code`. -/
+theorem processor_query_eq_fresh_partial (ops : List PrOp) (prec : Option Nat)
+    (hc : (exec (stepPr true) initPr ops).inputCurrent)
+    (ha : (exec (stepPr true) initPr ops).auto = false) :
+    (stepPr true (exec (stepPr true) initPr ops) (.probs prec)).2 =
+      freshPr true (exec (stepPr true) initPr ops).config prec := by
+  rw [probsPr_spec true _ prec (processor_inv_all_histories true ops) hc ha]
+  unfold freshPr
+  obtain ⟨c1, c2, c3⟩ := canonPr_state true (exec (stepPr true) initPr ops).config
+  rw [probsPr_spec true _ prec (processor_inv_all_histories true _) c2 c3, c1]
 
-example : (exec stepPr initPr [.addComp 1 1, .withInput 3, .setFilter 1, .probs, .setNoise 2]).config =
-    (exec stepPr initPr [.addComp 1 1, .setNoise 2, .setFilter 1, .withInput 3]).config := by decide
+theorem processor_history_independent (h₁ h₂ : List PrOp) (prec : Option Nat)
+    (c₁ : (exec (stepPr false) initPr h₁).inputCurrent) (c₂ : (exec (stepPr false) initPr h₂).inputCurrent)
+    (hc : (exec (stepPr false) initPr h₁).config = (exec (stepPr false) initPr h₂).config) :
+    (stepPr false (exec (stepPr false) initPr h₁) (.probs prec)).2 =
+      (stepPr false (exec (stepPr false) initPr h₂) (.probs prec)).2 := by
+  rw [processor_query_eq_fresh _ _ c₁, processor_query_eq_fresh _ _ c₂, hc]
+
+/-- non-vacuity: different histories (a herald added late and the input given again, a query with a precision,
+a post-selection set and cleared, a noise change) with the same final configuration and a current input -/
+example : (exec (stepPr false) initPr [.addComp 1, .withInput .bs 3 2, .setFilter 1, .probs (some 5),
+      .setPs 4, .clearPs, .addHerald 2 1, .withInput .bs 3 2, .probs none, .setNoise (2, false)]).config =
+    (exec (stepPr false) initPr [.addComp 1, .addHerald 2 1, .setNoise (2, false), .setFilter 1,
+      .withInput .bs 3 2]).config ∧
+    (exec (stepPr false) initPr [.addComp 1, .withInput .bs 3 2, .setFilter 1, .probs (some 5),
+      .setPs 4, .clearPs, .addHerald 2 1, .withInput .bs 3 2, .probs none, .setNoise (2, false)]).inputCurrent := by
+  refine ⟨by decide, ?_⟩
+  intro i hi
+  simp [exec, run, stepPr, initPr, effFilter, autoFilter, simFor, SimG.withPrec, genMap] at hi
+  subst hi
+  simp [exec, run, stepPr, initPr, effFilter, autoFilter, simFor, SimG.withPrec, genMap]
+
+example : (exec (stepPr true) initPr [.addComp 1, .setFilter 1, .withInput .bs 3 2, .probs none]).auto = false := by
+  decide
+
+/-- the code as it is does not have the property: the automatic filter of a first `probs()` (2 photons) is
+stored and applied to a later input with 1 photon, for which a fresh processor chooses 1 -/
+theorem processor_auto_filter_fails_on_current_code :
+    ¬ ∀ (ops : List PrOp) (prec : Option Nat), (exec (stepPr true) initPr ops).inputCurrent →
+      (stepPr true (exec (stepPr true) initPr ops) (.probs prec)).2 =
+        freshPr true (exec (stepPr true) initPr ops).config prec := by
+  intro h
+  have := h [.addComp 1, .withInput .bs 3 2, .probs none, .withInput .bs 4 1] none (by
+    intro i hi
+    simp [exec, run, stepPr, initPr, effFilter, autoFilter, simFor, SimG.withPrec, genMap] at hi
+    subst hi
+    simp [exec, run, stepPr, initPr, effFilter, autoFilter, simFor, SimG.withPrec, genMap])
+  revert this
+  decide
+
+/-- a precision given to one call does not stick: `probs(precision = 5)` then `probs()` answers with the default
+precision, `probs(precision = 5)` again with 5 — whatever was asked before -/
+theorem processor_precision_not_sticky :
+    (stepPr true (exec (stepPr true) initPr [.addComp 1, .setFilter 0, .withInput .bs 3 2, .probs (some 5)])
+        (.probs none)).2 =
+      .res ⟨1, 0, 0, 0, 0, some 0, .bs, 3, 0, 0, none⟩ ∧
+    (stepPr true (exec (stepPr true) initPr [.addComp 1, .setFilter 0, .withInput .bs 3 2, .probs (some 5),
+        .probs none]) (.probs (some 5))).2 =
+      .res ⟨1, 0, 0, 0, 0, some 0, .bs, 3, 0, 0, some 5⟩ := by
+  decide
+
+/-- what the code does when a herald is added after the input and the input is not given again: the answer is
+computed from the OLD merged input (heralds 0 written into it) under the NEW heralds (2), which no fresh
+processor can reproduce — `inputCurrent` is necessary -/
+theorem processor_herald_after_input_keeps_old_input :
+    (stepPr true (exec (stepPr true) initPr [.addComp 1, .setFilter 0, .withInput .bs 3 2, .addHerald 2 1])
+        (.probs none)).2 = .res ⟨1, 2, 0, 0, 0, some 0, .bs, 3, 0, 0, none⟩ ∧
+    freshPr true (exec (stepPr true) initPr [.addComp 1, .setFilter 0, .withInput .bs 3 2, .addHerald 2 1]).config
+        none = .res ⟨1, 2, 0, 0, 0, some 0, .bs, 3, 2, 0, none⟩ := by
+  decide
+
+/-! ### a NoiseModel updated in place while the processor holds it
+
+  `nm.set_value(…)` on the object last assigned to `processor.noise`: `processor.noise` shows the new values
+  at once, but nothing the simulation reads is refreshed (`_source`, the phase-noise snapshot, `_inputs_map`)
+  until the object is assigned again.  What IS guaranteed, for all histories: the answer is the one of a fresh
+  processor given the values of the last assignment (`Pr.config` carries `noise`, not `held` —
+  `processor_query_eq_fresh`), in-place updates are never observed, and without a pending update the answer is
+  the one for the values shown.
+-/
+
+/-- an in-place update of the held NoiseModel changes no answer -/
+theorem processor_inplace_noise_unobserved (persist : Bool) (ops : List PrOp) (v : NoiseV) (prec : Option Nat) :
+    (stepPr persist (exec (stepPr persist) initPr (ops ++ [.mutateNoise v])) (.probs prec)).2 =
+      (stepPr persist (exec (stepPr persist) initPr ops) (.probs prec)).2 := by
+  rw [exec_append]
+  generalize exec (stepPr persist) initPr ops = s
+  simp only [exec, run, stepPr, effFilter, simFor]
+  cases s.input with
+  | none => rfl
+  | some i =>
+    simp only []
+    cases autoFilter s.filt s.source.2 i.kind (i.n + i.nHer - s.nHer) <;> rfl
+
+/-- … nor any later one: whatever follows (`rest`: further operations and queries), every output is the same
+with and without the in-place update — no operation of the processor reads the held object -/
+theorem processor_inplace_noise_never_observed (persist : Bool) (ops rest : List PrOp) (v : NoiseV) :
+    (run (stepPr persist) (exec (stepPr persist) initPr (ops ++ [.mutateNoise v])) rest).2 =
+      (run (stepPr persist) (exec (stepPr persist) initPr ops) rest).2 := by
+  rw [exec_append]
+  generalize exec (stepPr persist) initPr ops = s
+  have hrel : sameButHeld (exec (stepPr persist) s [.mutateNoise v]) s := ⟨s.held, rfl⟩
+  exact (refine_run (stepPr persist) (stepPr persist) sameButHeld
+    (fun a b op h => sameButHeld_step persist a b op h) _ _ hrel rest).2
+
+/-- without a pending in-place update, the answer is the one of a fresh processor given the configuration
+`processor.noise` shows -/
+theorem processor_query_eq_fresh_shown (ops : List PrOp) (prec : Option Nat)
+    (hc : (exec (stepPr false) initPr ops).inputCurrent)
+    (hd : ¬ (exec (stepPr false) initPr ops).dirty) :
+    (stepPr false (exec (stepPr false) initPr ops) (.probs prec)).2 =
+      freshPr false (exec (stepPr false) initPr ops).shown prec := by
+  have : (exec (stepPr false) initPr ops).shown = (exec (stepPr false) initPr ops).config := by
+    unfold Pr.dirty at hd
+    have hh : (exec (stepPr false) initPr ops).held = (exec (stepPr false) initPr ops).noise :=
+      Classical.not_not.mp hd
+    simp [Pr.shown, hh, Pr.config]
+  rw [this]
+  exact processor_query_eq_fresh ops prec hc
+
+/-- with a pending update the answer is NOT the one for the values shown: it still carries the noise of the
+last assignment (1), a fresh processor given the shown values (2) answers for 2 -/
+theorem processor_inplace_noise_not_observed_witness :
+    (stepPr true (exec (stepPr true) initPr
+        [.addComp 1, .setFilter 0, .setNoise (1, false), .withInput .bs 3 2, .probs none, .mutateNoise (2, false)])
+        (.probs none)).2 = .res ⟨1, 0, 0, 0, 1, some 1, .bs, 3, 0, 0, none⟩ ∧
+    freshPr true (exec (stepPr true) initPr
+        [.addComp 1, .setFilter 0, .setNoise (1, false), .withInput .bs 3 2, .probs none,
+         .mutateNoise (2, false)]).shown none = .res ⟨1, 0, 0, 0, 2, some 2, .bs, 3, 0, 0, none⟩ ∧
+    -- assigning the object again refreshes everything
+    (stepPr true (exec (stepPr true) initPr
+        [.addComp 1, .setFilter 0, .setNoise (1, false), .withInput .bs 3 2, .probs none, .mutateNoise (2, false),
+         .setNoise (2, false)]) (.probs none)).2 = .res ⟨1, 0, 0, 0, 2, some 2, .bs, 3, 0, 0, none⟩ := by
+  decide
+
+/-- a distribution given as input bypasses the source: a later noise assignment changes the phase noise only -/
+theorem processor_distribution_input_keeps_map :
+    (stepPr true (exec (stepPr true) initPr
+        [.addComp 1, .setFilter 0, .withInput .svd 3 0, .probs none, .setNoise (2, false)]) (.probs none)).2 =
+      .res ⟨1, 0, 0, 0, 2, none, .svd, 3, 0, 0, none⟩ := by
+  decide
 
 /-! ## Backends: Naive, SLAP, SLOS, MPS (repaired code, `fixed = true`)
 
